@@ -94,6 +94,14 @@ reg("C06", "model_checking",
     "Callback frames carry the sequence number of the last answered command (firmware behaviour); replies to abandoned requests may be dropped; stateless search: 'states' counts visited world states without merging.",
     "DESIGN.md section 3 C06")
 
+reg("C16", "exploration",
+    "bounded exhaustive enumeration of (version, current NCP configuration, override set, per-setting answer) through the real EZSP.write_config against a logging config store",
+    "Versions 4..14 x every setting of the version's schema x current {below, equal, above, unreadable} x override {absent, lower, higher, disabled} x answer {accept, 4 rejection statuses}; "
+    "all pairs of 6 interesting settings (thorough: + triples of capacity settings) x {blank, large current} x rejection sets. Judged on the set frames the simulated NCP saw: each ID at most once, "
+    "no capacity setting lowered without a user override, overrides verbatim, disabled settings not written and no exception, buffer count last, rejection changes nothing else (differential against the all-accept run).",
+    "Capacity settings listed by name in the check; values chosen inside the schema validators' ranges. One known finding (v7 key-table schema default) is listed in KNOWN_FINDINGS.txt.",
+    "DESIGN.md section 3 C16")
+
 ALL = ["C%02d" % i for i in range(1, 21)]
 
 
